@@ -94,6 +94,21 @@ def run(rep, tier, seed, replay):
                 rep.known_hits[tag] += 1
             else:
                 rep.violation("oracle", "a walk with depth bounds %s" % what, c.describe(), impl=c.impl[:300])
+        # under ReadTarget an error item below the root names a re-entrant or dangling link (or an unreadable directory), never
+        # a plain entry, a link to a file, or a link to a directory that is not one of its ancestors (two links may well lead
+        # to the same directory): judged on every walk, bounded or not, glob or path
+        if u.link == "t":
+            for w in (u, c):
+                wn = walklib.rec_paths(w.f.get("rec", "-"), "@R")
+                cn = lambda p: "/".join(x for x in (p or "").split("/") if x)
+                wk = {cn(p): k for p, k, _d in wn}
+                wrong = [cn(p) for p, d in walklib.err_items(w.f.get("items")) if p is not None and d > 0 and wk.get(cn(p)) in ("d", "f", "lt", "lf")]
+                if wrong:
+                    rep.violation("oracle", "reading link targets reports %r as an error although it is %s" % (wrong[0], {"lt": "a link to a directory that is not one of its ancestors", "lf": "a link to a file"}.get(wk.get(wrong[0]), "a plain entry")),
+                                  w.describe(), impl=w.impl[:300])
+                    break
+            else:
+                rep.stats["ReadTarget: error items name only re-entrant or dangling links"] += 1
         # link clauses, on the unbounded path walks (no pruning by a glob)
         if u.mode == "p":
             root = "@R"
